@@ -10,6 +10,7 @@ area = "node"
 driver = "drv_node"
 cxx = False
 fixed_lines = 1
+per_process = 400   # a faulting script costs a restart of its batch only
 rule = ("scripts = 'n begin', node ops, 'n end' (destroy everything, every byte must come back); "
         "stream 1 (exhaustive small scope): every forest that can be built from <=4 (quick) / <=5 (thorough) nodes by "
         "'stay root / last child of an earlier node / appended to an earlier top-level list', names from {a,b} "
